@@ -58,6 +58,16 @@ def check_op(ctx, h, r):
     scoped = path.startswith("@")
     inp = {"doc": h.text, "ops": [list(x.op) for x in h.recs], "at": list(r.op), "before": r.before_text}
     base_key = {"op": r.op[0], "path": ep.shape_of_path(path), "wrapper": h.info.get("wrapper")}
+    if ep.quoted_identifier_segment(path):
+        base_key["quoted_ident"] = True
+    mixed_roots = ep.attrpath_prefixes_of(r.before_text, "mixed") if not scoped else set()
+    if mixed_roots:
+        try:
+            nm0 = tuple(ep.split_path(path))
+        except Exception:  # noqa: BLE001
+            nm0 = ()
+        if any(nm0[:k] in mixed_roots for k in range(1, len(nm0) + 1)):
+            base_key["mixed"] = True  # the path runs through a name defined both explicitly and by a dotted binding
     editable = cstread.find_target(cstread.ts_parse(r.before_text)) is not None and \
         not cstread.ts_parse(r.before_text).has_error
     if r.result == "ok":
@@ -162,6 +172,7 @@ def check_op(ctx, h, r):
         or through_leaf
         or (r.op[0] == "set" and tuple(names) in parents)          # attrpath-root overwrite
         or (r.op[0] == "rm" and tuple(names) in parents)           # attrpath root cannot be removed as a whole
+        or tuple(names) in mixed_roots                              # … also when an explicit binding of the root exists
         or any(tuple(names[:k]) in parents or isinstance(ep.tree_get(tb, names[:k]), dict) and mixed(tb, names, k, parents)
                for k in range(1, len(names)))
     )
